@@ -30,7 +30,13 @@ def run(ctx):
     grown = prism_eval.emit(ctx, 4, 10, "Tri0", [1], simulate=2 if quick else 12, depth=9)
     precs += prism_eval.pick(grown, 8 if quick else 150, ctx.seed)
     ctx.extra["prisms_with_triangulated_caps"] = len(precs)
-    prism_eval.replay(ctx, prism_eval.build_cases(precs, ctx.tier, ctx.seed, variant="tri"))
+    pcases = prism_eval.build_cases(precs, ctx.tier, ctx.seed, variant="tri")
+    if quick:
+        # the listed finding (a point in the plane of a face of a rotated prism, known_findings.json) is exercised in every tier
+        from ..placement import palette as _pal
+        zig = [r for r in prism_eval.emit(ctx, 8, 0, "NamedSmall", [3]) if r["poly"][:3] == [[0, 0], [2, 2], [4, 0]] and len(r["poly"]) == 8]
+        pcases += [{"rec": r, "pl": _pal(8, ctx.tier)[2].to_json(), "kt": 0, "kb": 3, "inside": True, "variant": "tri"} for r in zig]
+    prism_eval.replay(ctx, pcases)
     # Polyhedron copies of convex solids: vertices + outward facet cycles of the lattice polytopes of spec/Convex3.tla (faces
     # with 3..n corners: triangles, trapezoids, kites, pentagons, ...), exact measures from the same records as C01
     from .. import convex_driver as cd
